@@ -39,3 +39,23 @@ Section C04.
 End C04.
 Print Assumptions C04_parse_only_if.
 Print Assumptions C04_unverifiable_flagged.
+
+From RSP Require Import Ttl Crypt Rewrite Choose Proxy Slots_proofs Dup_proofs Reply_proofs.
+Local Open Scope N_scope.
+
+(* through the whole handler model replyh (every state, packet, configuration, oracle): anything is delivered to
+   a client only if the packet's Identifier names an occupied slot whose request was TRANSMITTED (tries <> 0),
+   the packet parses and authenticates against THAT request's authenticator under the server's secret
+   (C04_parse_only_if then gives the Response-Authenticator / Message-Authenticator facts), its code is a
+   response code, no Message-Authenticator failed, and the RequireMessageAuthenticator rule is met *)
+Theorem C04_deliver_only_if : forall md5 rx cfg fs st s buf now rnd c p,
+  In (OReply c p) (snd (replyh md5 rx cfg fs st s buf now rnd)) ->
+  exists h r msg,
+    slot_of st s (nth 1 buf 0) = Some h /\ get_rq st h = Some r /\
+    sl_tries (get_slot (get_server st s) (nth 1 buf 0)) <> 0 /\
+    buf2radmsg md5 buf (sc_secret (srvconf_of cfg s)) (match rq_msg r with Some m => Some (m_auth m) | None => None end) = Some msg /\
+    reply_codes (m_code msg) = true /\ m_mainvalid msg = false /\
+    reply_ma_required (srvconf_of cfg s) msg = false /\
+    (match rq_msg r with Some m => m_code m | None => 0 end) <> Consts.RAD_Status_Server.
+Proof. exact replyh_accept_only_if. Qed.
+Print Assumptions C04_deliver_only_if.
